@@ -69,7 +69,7 @@ KANI_VM_OPS_DATA = _vm_ops(['select_len_3', 'store_range_4_3', 'extend_small', '
 KANI_VM_OPS_CF = _vm_ops(['panic_if_len_1', 'panic_if_len_0', 'panic_if_len_4'], True)
 KANI_VM_OPS_ACCESS = _vm_ops(['predicate_data_2_slots', 'extend_small'], True)
 _NK = 'next_key(key) == big-endian successor over signed words (MAX wraps to MIN with carry; None iff every word is MAX or the key is empty)'
-KANI_NEXT_KEY = {'crate': 'kani/check_k2', 'kind': 'bounded', 'parallel': 4, 'timeout_s': 900, 'mem_gb': 12, 'harnesses': [
+KANI_NEXT_KEY = {'crate': 'kani/check_k2', 'kind': 'bounded', 'tier': 'thorough', 'parallel': 4, 'timeout_s': 900, 'mem_gb': 12, 'harnesses': [
     _h('proofs::next_key_len_2', _NK, 'keys of exactly 2 words, all words'),
     _h('proofs::next_key_len_0', _NK, 'the empty key'),
     _h('proofs::next_key_len_1', _NK, 'keys of exactly 1 word, all words'),
